@@ -62,14 +62,14 @@ class Run:
         return d
 
     # ---------------------------------------------------------------- harness
-    def build_harness(self):
-        """Build the Go harness from /repo's current working tree with the verif tag."""
-        out = os.path.join(self.work, "vh")
+    def build_harness(self, cmd="vh"):
+        """Build a Go harness binary (harness/cmd/<cmd>) from /repo's current working tree with the verif tag."""
+        out = os.path.join(self.work, cmd)
         gosum = os.path.join(HARNESS, "go.sum")
         if not os.path.exists(gosum):
             shutil.copy(os.path.join(REPO, "go.sum"), gosum)
         t = time.time()
-        p = subprocess.run(["go", "build", "-tags", "verif", "-o", out, "./cmd/vh"], cwd=HARNESS, env=GOENV,
+        p = subprocess.run(["go", "build", "-tags", "verif", "-o", out, "./cmd/" + cmd], cwd=HARNESS, env=GOENV,
                            stdout=subprocess.PIPE, stderr=subprocess.STDOUT, text=True)
         if p.returncode != 0:
             log(p.stdout[-4000:])
